@@ -508,7 +508,11 @@ func pingHandover(c *run.Ctx, variant string) {
 		// (select picks at random between the two; retry is pointless, so accept either)
 		close(quit)
 	}
-	if !w.WaitGateWaiting("first", 1, 2*time.Second) {
+	enter := 2 * time.Second
+	if variant == "writefail" {
+		enter = sim.StepTimeout // nothing but load keeps this variant out of the window
+	}
+	if !w.WaitGateWaiting("first", 1, enter) {
 		// the window was not entered in this variant (legal: the other select branch won);
 		// a PINGREQ that did go out gets its answer
 		w.Mu.Lock()
